@@ -28,6 +28,15 @@ PROGRAMS = [
      [9, 8, 7], []),
     ("decorators", DECOS, [4, 5, 6], [0] * 4),
     ("loop", "begin push.4 dup.0 neq.0 while.true sub.1 clk drop dup.0 neq.0 end drop end", [], []),
+    # memory cells written several times (the state between two writes must show the earlier one), counters and accumulators
+    # kept in memory / in locals, the same address in two contexts
+    ("memcell", "begin push.1 mem_store.5 push.2 mem_store.5 mem_load.5 drop push.3 mem_store.5 push.4 mem_store.5 mem_load.5 drop "
+                "push.1.2.3.4 mem_storew.6 dropw push.5.6.7.8 mem_storew.6 dropw push.9 mem_store.6 padw mem_loadw.6 dropw end", [], []),
+    ("memloop", "begin push.3 mem_store.9 push.1 while.true mem_load.9 sub.1 dup.0 mem_store.9 neq.0 end mem_load.9 drop end", [], []),
+    ("memctx", "proc.f push.7 mem_store.5 push.8 mem_store.5 push.9 mem_store.5 mem_load.5 drop end "
+               "begin push.1.2.3.4 mem_storew.5 dropw call.f push.6 mem_store.5 call.f push.5 mem_store.5 mem_load.5 drop end", [], []),
+    ("memlocal", "proc.f.2 push.1 loc_store.0 repeat.3 loc_load.0 add.1 loc_store.0 end push.4.3.2.1 loc_storew.1 dropw loc_load.0 drop end "
+                 "begin call.f exec.f end", [], []),
 ]
 # advice map for adv.push_mapval (key = top word after the pushes) is not provided: use keys that exist
 
@@ -69,6 +78,25 @@ def cmp_state_row(st, rows):
     return None
 
 
+def mem_at(memrows, ctx, t):
+    """memory of context ctx as the trace holds it at row t: for every address the word of the last memory-chiplet row with
+    a clock below t (rows: [ctx, addr, clk, read?, word])"""
+    m = {}
+    for r in sorted((r for r in memrows if r[0] == ctx and r[2] < t), key=lambda r: r[2]):
+        m[unlimbs(r[1])] = r[4]
+    return m
+
+
+def cmp_state_mem(st, memrows):
+    want = mem_at(memrows, st["ctx"], st["clk"])
+    got = {a: w for a, w in st["mem"]}
+    if got != want:
+        bad = sorted(a for a in set(got) | set(want) if got.get(a) != want.get(a))
+        return ("mem", "memory reported for clock %d differs from the memory chiplet rows of the trace at address(es) %s: %s vs %s" % (
+            st["clk"], bad[:3], [got.get(a) and [unlimbs(x) for x in got[a]] for a in bad[:3]], [want.get(a) and [unlimbs(x) for x in want[a]] for a in bad[:3]]))
+    return None
+
+
 def run(tier, replay=None):
     ck = Check("C14", tier)
     ck.rule = "a case = (program, configuration) for determinism, or (program, Next/Back word) for the iterator; distinct = distinct pairs"
@@ -89,7 +117,7 @@ def run(tier, replay=None):
     with open(dinp, "w") as f:
         for name, src, inputs, adv in PROGRAMS:
             f.write(json.dumps({"src": src, "inputs": [limbs(x) for x in inputs], "adv": [limbs(x) for x in adv], "configs": cfgs}) + "\n")
-    ref_rows, fwd_states = {}, {}
+    ref_rows, fwd_states, ref_mem, nmem = {}, {}, {}, [0]
     for prof in ("release", "checked"):
         outp = os.path.join(wd, "det_%s.ndjson" % prof)
         run_harness(prof, ["determinism", dinp, outp])
@@ -115,6 +143,7 @@ def run(tier, replay=None):
                             break
                     if cfg["rows"]:
                         ref_rows[(prof, name)] = res["rows"]
+                        ref_mem[(prof, name)] = res["memrows"]
                 else:
                     rows = ref_rows[(prof, name)]
                     sts = res["states"]
@@ -122,10 +151,12 @@ def run(tier, replay=None):
                         ck.violation(sig, "iterator yields %d states for a trace of %d rows" % (len(sts), len(rows)), rep)
                     seen_kinds = set()
                     for st in sts:
-                        d = cmp_state_row(st, rows)
-                        if d and d[0] not in seen_kinds:
-                            seen_kinds.add(d[0])
-                            ck.violation("iterstate:%s:%s:%s" % (d[0], prof, name), "forward pass, state at clk %d: %s" % (st["clk"], d[1]), rep)
+                        nmem[0] += 1
+                        # (the memory comparison is independent of the stack comparison: the recorded overflow finding must not mask it)
+                        for d in (cmp_state_row(st, rows), cmp_state_mem(st, ref_mem[(prof, name)])):
+                            if d and d[0] not in seen_kinds:
+                                seen_kinds.add(d[0])
+                                ck.violation("iterstate:%s:%s:%s" % (d[0], prof, name), "forward pass, state at clk %d: %s" % (st["clk"], d[1]), rep)
                         if st["op"] == "CLK" and unlimbs(st["stack"][0]) != st["clk"] - 1:
                             ck.violation(sig, "clk pushed %d at clock %d" % (unlimbs(st["stack"][0]), st["clk"] - 1), rep)
                             break
@@ -134,6 +165,9 @@ def run(tier, replay=None):
                     if key in fwd_states and fwd_states[key] != stripped:
                         ck.violation(sig, "iterator states differ between debug and non-debug assembly", rep)
                     fwd_states.setdefault(key, stripped)
+    ck.extra["iterator_states_compared_with_trace_memory"] = nmem[0]
+    if not replay and nmem[0] == 0:
+        raise ToolError("no iterator state was compared with the memory rows of the trace")
     # ---- iterator walks ---------------------------------------------------------------------------
     winp = os.path.join(wd, "walks.ndjson")
     wl = ["".join(w["word"]) for w in words]
